@@ -685,7 +685,7 @@ func parseContractLines(pkg string, lines []string) (*PkgContracts, error) {
 			}
 			after := strings.TrimSpace(rest[strings.Index(rest, f[1])+len(f[1]):])
 			kw2, rest2 := splitKeyword(after)
-			if kw2 != "assert" {
+			if kw2 != "assert" && kw2 != "assume" {
 				return nil, fmt.Errorf("%s: bad at clause %q", pkg, s)
 			}
 			label, src := splitLabel(rest2)
@@ -693,7 +693,11 @@ func parseContractLines(pkg string, lines []string) (*PkgContracts, error) {
 			if err != nil {
 				return nil, fmt.Errorf("%s: %s: %v", pkg, s, err)
 			}
-			cur.CallSites = append(cur.CallSites, &CallSiteSpec{Callee: callee, Ordinal: ord, Clause: &Clause{Kind: "callsite", Label: label, Src: src, E: e}})
+			kind := "callsite"
+			if kw2 == "assume" {
+				kind = "callassume" // trusted fact about the state after the call
+			}
+			cur.CallSites = append(cur.CallSites, &CallSiteSpec{Callee: callee, Ordinal: ord, Clause: &Clause{Kind: kind, Label: label, Src: src, E: e}})
 		case "maypanic":
 			cur.MayPanic = true
 		case "opaque":
